@@ -17,8 +17,9 @@ open PlzVerif.Label PlzVerif.Visibility PlzVerif.Generated
 
 abbrev lf : Label.Facts := generatedFacts
 abbrev vf : VFacts := generatedVFacts
+abbrev df : DFacts := generatedDFacts
 
-def CoreOK : Bool := lf.includesSlash
+def CoreOK : Bool := lf.includesSlash && !df.unsetIsFalsy
 
 /-- The sequence of tests in the two functions, with identifiers replaced by roles. -/
 def ShapeOK : Bool :=
@@ -36,6 +37,13 @@ def ShapeOK : Bool :=
     "if !SELF.CanSee(STATE, DEP) -> error",
     "if DEP.TestOnly && !SELF.IsTest() && !SELF.TestOnly -> nested { if SELF.Label.isExperimental(STATE) -> continue else -> error }",
     "return nil"] &&
+  -- the declared restriction: which buildRule arguments take a default, from where, and what an empty visibility means
+  C33.defaultUnsetTest == "ARG == nil || ARG == None" &&
+  C33.buildRuleDefaults.contains "visibilityBuildRuleArgIdx=DEFAULT_VISIBILITY" &&
+  C33.buildRuleDefaults.contains "testOnlyBuildRuleArgIdx=DEFAULT_TESTONLY" &&
+  C33.buildRuleDefaultsAligned &&
+  C33.configDefaults == ["DEFAULT_VISIBILITY=None", "DEFAULT_TESTONLY=False"] &&
+  C33.populateVisibilityCond == "vis, ok := asList(args[visibilityBuildRuleArgIdx]); ok && len(vis) != 0" &&
   C20.isExperimentalUsesIncludes && C20.isExperimentalChecksSubrepo && C20.experimentalLabelName == "..." &&
   C20.parentLits == ["#", "_"] && C20.allSubpackagesName == ["..."] && C20.allTargetsName == ["all"]
 
@@ -48,7 +56,13 @@ theorem C33_facts_ok : FactsOK = true := by decide
 theorem core : lf.includesSlash = true := by
   have h := C33_facts_ok
   simp only [FactsOK, CoreOK, Bool.and_eq_true] at h
-  exact h.1
+  exact h.1.1
+
+/-- `defaultFromConfig` treats only `nil`/`None` as "not set" (read from the source on this run). -/
+theorem unset_is_none : df.unsetIsFalsy = false := by
+  have h := C33_facts_ok
+  simp only [FactsOK, CoreOK, Bool.and_eq_true, Bool.not_eq_true'] at h
+  exact h.1.2
 
 /-- What `CanSee` computes, exactly. -/
 theorem C33_cansee_characterisation (dirs : List Str) (src : Label) (dep : VTarget) :
@@ -72,6 +86,50 @@ example : OneRepo ⟨"a/b".toList, "_x#y".toList, []⟩
   refine ⟨rfl, ?_⟩; intro v hv; simp at hv; rcases hv with rfl | rfl
   · right; rfl
   · left; rfl
+
+/-! ### the declared restriction of a target is what it wrote -/
+
+/-- An explicit `visibility = …` — the empty list included — is the target's visibility; only an omitted or `None`
+    argument takes the package default, and without one the configuration default (no visibility). -/
+theorem C33_declared_visibility_exact (arg pkgDef : Option (List Label)) :
+    effVis df arg pkgDef = match arg with
+      | some l => l
+      | none => (match pkgDef with | some l => l | none => []) := by
+  cases arg with
+  | none => cases pkgDef <;> simp [effVis]
+  | some l => simp [effVis, unset_is_none]
+
+/-- An explicit `test_only = …` — `False` included — is the target's flag. -/
+theorem C33_declared_testonly_exact (arg pkgDef : Option Bool) :
+    effTestOnly df arg pkgDef = match arg with
+      | some b => b
+      | none => (match pkgDef with | some b => b | none => false) := by
+  cases arg with
+  | none => cases pkgDef <;> simp [effTestOnly]
+  | some b => simp [effTestOnly, unset_is_none]
+
+/-- Composition with the visibility theorems: a dependent is admitted by a target with an EXPLICIT declaration iff
+    that declaration (not the package default) makes it visible. -/
+theorem C33_explicit_declaration_decides (dirs : List Str) (src lab : Label) (l : List Label)
+    (pkgDef : Option (List Label)) (to isTest : Bool) (hr : OneRepo src ⟨lab, l, to, isTest⟩) :
+    canSee lf vf dirs src ⟨lab, effVis df (some l) pkgDef, to, isTest⟩ = true ↔ Visible dirs src ⟨lab, l, to, isTest⟩ := by
+  rw [C33_declared_visibility_exact]
+  exact C33_visible_exact_partial dirs src ⟨lab, l, to, isTest⟩ hr
+
+-- the shape of the round-3 seed, positively: `package(default_visibility = ["PUBLIC"])`, `visibility = []`: private
+example : effVis df (some []) (some [publicLabel]) = [] ∧
+    canSee lf vf [] ⟨"app".toList, "x".toList, []⟩ ⟨⟨"lib".toList, "t".toList, []⟩, effVis df (some []) (some [publicLabel]), false, false⟩ = false ∧
+    canSee lf vf [] ⟨"app".toList, "x".toList, []⟩ ⟨⟨"lib".toList, "t".toList, []⟩, effVis df none (some [publicLabel]), false, false⟩ = true ∧
+    effTestOnly df (some false) (some true) = false := by decide
+
+/-- Witness for the truthiness variant of `defaultFromConfig` (a falsy argument counts as not set): an explicit
+    `visibility = []` is replaced by the package default PUBLIC and a dependent the declaration rejects is admitted;
+    an explicit `test_only = False` becomes `True`. -/
+theorem C33_witness_falsy_counts_as_unset :
+    effVis ⟨true⟩ (some []) (some [publicLabel]) = [publicLabel] ∧
+    canSee lf vf [] ⟨"app".toList, "x".toList, []⟩ ⟨⟨"lib".toList, "t".toList, []⟩, effVis ⟨true⟩ (some []) (some [publicLabel]), false, false⟩ = true ∧
+    ¬ Visible [] ⟨"app".toList, "x".toList, []⟩ ⟨⟨"lib".toList, "t".toList, []⟩, [], false, false⟩ ∧
+    effTestOnly ⟨true⟩ (some false) (some true) = true := by decide
 
 /-- The test_only rule, exactly (all repositories). -/
 theorem C33_test_only_exact (dirs : List Str) (t d : VTarget) :
